@@ -53,6 +53,9 @@ func (m *RWMutex) Lock() {
 		m.mu.Lock()
 		return
 	}
+	// two transitions, as in sync.RWMutex: the writer first gets in line (from then on new
+	// readers block), then waits for the readers that are already in to leave
+	vrt.Point(&vrt.Op{Kind: vrt.OpRLock, Name: "WLock.announce", Obj: uintptr(unsafe.Pointer(m)), Write: true, Announce: true, RW: &m.st})
 	vrt.Point(&vrt.Op{Kind: vrt.OpRLock, Name: "WLock", Obj: uintptr(unsafe.Pointer(m)), Write: true, RW: &m.st})
 }
 func (m *RWMutex) Unlock() {
@@ -62,6 +65,7 @@ func (m *RWMutex) Unlock() {
 	}
 	vrt.Point(&vrt.Op{Kind: vrt.OpAtomic, Name: "WUnlock", Obj: uintptr(unsafe.Pointer(m)), Write: true, Release: true})
 	m.st.Writer = false
+	m.st.Announced = false
 	vrt.UnheldRW(&m.st, true)
 }
 func (m *RWMutex) RLock() {
@@ -80,6 +84,34 @@ func (m *RWMutex) RUnlock() {
 	m.st.Readers--
 	vrt.UnheldRW(&m.st, false)
 }
+// TryRLock succeeds iff RLock would not block: no writer holds the lock or is in line for it.
+func (m *RWMutex) TryRLock() bool {
+	if !vrt.Active() {
+		return m.mu.TryRLock()
+	}
+	vrt.Point(&vrt.Op{Kind: vrt.OpAtomic, Name: "TryRLock", Obj: uintptr(unsafe.Pointer(m)), Write: true})
+	if m.st.Writer || m.st.Announced {
+		return false
+	}
+	m.st.Readers++
+	vrt.HoldRW(&m.st, false)
+	return true
+}
+
+// TryLock succeeds iff Lock would not block.
+func (m *RWMutex) TryLock() bool {
+	if !vrt.Active() {
+		return m.mu.TryLock()
+	}
+	vrt.Point(&vrt.Op{Kind: vrt.OpAtomic, Name: "TryWLock", Obj: uintptr(unsafe.Pointer(m)), Write: true})
+	if m.st.Writer || m.st.Announced || m.st.Readers > 0 {
+		return false
+	}
+	m.st.Writer, m.st.Announced = true, true
+	vrt.HoldRW(&m.st, true)
+	return true
+}
+
 func (m *RWMutex) RLocker() orig.Locker { return (*rlocker)(m) }
 
 type rlocker RWMutex
@@ -161,6 +193,14 @@ func (p *Pool) Put(x interface{}) {
 	}
 	if p.epoch != vrt.S.Epoch {
 		p.items, p.epoch = nil, vrt.S.Epoch
+	}
+	for _, it := range p.items {
+		if it == x {
+			// comparable (pointer) items only: the same object is in the pool twice, so two
+			// later Gets hand it to two users at once
+			vrt.Hazard("object handed back to a sync.Pool twice (two later users will share it)")
+			break
+		}
 	}
 	p.items = append(p.items, x)
 }
